@@ -164,6 +164,7 @@ def stepModel (st : St) (cmd : String) (impl : String) : St × Verdict :=
     ({ st with db := s' }, v m s!"merge/{(impl.splitOn " ").headD ""}")
   | "obs" => (st, v ("ok " ++ obs s (N 1)) "obs")
   | "capture" => (st, v "ok" "capture")
+  | "concmerge" => (st, v "ok" "concmerge")
   | "image" =>
     -- the crash image is an input (its record listing comes from the implementation's own reader);
     -- the model predicts what Open does with it and what is observed afterwards
@@ -180,6 +181,14 @@ def stepModel (st : St) (cmd : String) (impl : String) : St × Verdict :=
       | .panic => "open=panic"
     let head := match payload.splitOn " open=" with | h :: _ => h | [] => ""
     (st, v ("ok " ++ head ++ " " ++ pred) s!"image/{field "event"}/{field "open"}")
+  | "backupobs" =>
+    -- the copy made by Backup at this point of the serial order: it must open and show this state
+    let (s', o) := openDB s.opt s.files
+    let pred := match o with
+      | .ok _ => "open=ok obs=" ++ obs s' (N 2)
+      | .err => "open=err"
+      | .panic => "open=panic"
+    (st, v ("ok " ++ pred) "backupobs")
   | "files" =>
     let showF (f : File) : String := toString f.fid ++ "{" ++ ",".intercalate (f.recs.map fun (o, r) =>
       s!"{o}:{r.flag}:{r.ds}:{r.status}:{r.txid}:{r.ts}:{r.ttl}:" ++ hexOfBytes r.bucket ++ "/" ++ hexOfBytes r.key ++ "=" ++ hexOfBytes r.value) ++ "}"
@@ -371,6 +380,16 @@ def step (st : St) (cmd : String) (impl : String) : St × Verdict :=
   let resync := specOk == some false && tag != "in-guard" && vm.model == impl &&
     (op == "obs" || op == "open" || op == "commit" || op == "rollback" || op == "merge")
   let sp2 := if resync then { sp1 with committed := DBSpec.abs st1.db } else sp1
-  ({ st1 with sp := sp2 }, { vm with specOk := specOk, spec := (out.expect.map (·.want)).getD "", tag := tag })
+  -- Merge running concurrently (C17): a KV read that shows a stale, previously committed value is the
+  -- known finding D-MERGE-NOLOCK; the model cannot predict it, so the answer is taken as an input
+  let a1 := parseBytes ((words cmd).getD 1 "-")
+  let want := (out.expect.map (·.want)).getD ""
+  let staleRead := sp1.concMerge && specOk == some false && vm.model != impl && (op == "get" || op == "getall" || op == "range") &&
+    DBSpec.staleExplains sp1.hist a1 (DBSpec.parsePairs (if op == "get" then "[" ++ resPayload impl ++ "]" else resPayload impl))
+      (DBSpec.parsePairs (if op == "get" then "[" ++ resPayload want ++ "]" else resPayload want))
+  if staleRead || (sp1.concMerge && op == "obs") then
+    ({ st1 with sp := sp2 }, { vm with model := impl, specOk := if op == "obs" then none else specOk, spec := want, tag := "finding:D-MERGE-NOLOCK" })
+  else
+  ({ st1 with sp := sp2 }, { vm with specOk := specOk, spec := want, tag := tag })
 
 end Nuts.Driver.DBSuite
